@@ -723,7 +723,10 @@ func (c *c06ctx) runCase(fx *fixture, lc listCase) {
 		r.Count("listings_with_delimiter_straddling_prefix_end", 1)
 	}
 	sigOf := func(specific string) string {
-		if straddle {
+		// a paged HTTP delimiter listing loses / repeats entries whatever the shape of the keys
+		// (recorded finding, signature = specific); the straddle class is only named where that
+		// defect cannot be the cause: single-page listings and the storage API
+		if straddle && !(strings.HasPrefix(lc.API, "http") && pages > 1) {
 			return "delimiter-straddles-prefix-end:" + fam
 		}
 		return specific
